@@ -1,7 +1,7 @@
 """Maintenance tool (not part of any check): regenerate the `C15-synth-*` entries of known_findings.d/C15.json.
 
 The synthetic TZif sessions of C15 (rec/c15.rs `synth`) disagree with the unchanged library in a few hundred classes that
-all belong to five root causes (see "roots" in the file). One entry per (op, cls, observed) is required, each with a failing
+all belong to three root causes (see "roots" in the file). One entry per (op, cls, observed) is required, each with a failing
 input; this tool records the synthetic sessions for several seeds in the quick and the thorough configuration, validates
 them with Trace_Tzif, and writes one entry per class that is not covered by a hand-written entry, with the smallest
 failing input it saw.
@@ -19,42 +19,32 @@ NPARTS = 4
 TARGET = os.path.join(lib.ROOT, "known_findings.d", "C15.json")
 
 ROOTS = {
-    "posix-rule-day-kinds": "Jn / n footers: cmp_seconds_to_transitions compares the rule's day number with the zero-based day of the year of the UTC day "
-                            "(Jn is one-based and never counts 29 February, so the rule fires one day late except after February of leap years), takes the "
-                            "transition day on the UTC day instead of the local day, subtracts the DST offset from both rule times and cannot carry rule times "
-                            "outside 0..24 h over to a neighbouring day. Right far from the rule transitions, wrong in the days around them. Same repair as "
-                            "[posix-rule] / [local-lookup]: compute the two transition instants of the year and compare instants (proposed_fixes/C15-1-posix-rule-instants.patch).",
-    "mixed-day-kinds": "A footer whose start and end rules are of different kinds (valid POSIX, e.g. J60 with M11.1.0; zic writes all-year DST as 0/0,J365/25) is "
-                       "answered with TemporalError::assert() (\"Mismatched day types on a POSIX string\") by cmp_seconds_to_transitions, for every instant and "
-                       "wall-clock reading the footer governs. An internal-assertion error on valid data is also a C03 violation (known_findings.d/C03.json). "
-                       "proposed_fixes/C15-1-posix-rule-instants.patch (full repair) or proposed_fixes/C03-mixed-day-kinds-minimal.patch (removes the assertion only).",
-    "close-transitions": "Tzif::v2_estimate_tz_pair returns at the first table transition whose two wall-clock readings bracket the value, without looking at "
-                         "its neighbours, and its result type holds at most two instants: wrong when another transition lies within the span of the zone's "
-                         "offsets (a local time type in force for less time than the offset changes by; three or more instants for one reading). "
-                         "proposed_fixes/C15-2-close-transitions.patch repairs all but the readings with three or more instants (the result type holds two).",
+    "close-transitions": "resolve_local_seconds (shared by Tzif::v2_estimate_tz_pair and the POSIX footer) returns at the first offset change whose two wall-clock readings "
+                         "bracket the value, without looking at its neighbours, and its result type holds at most two instants: wrong when another change lies within the "
+                         "span of the zone's offsets (a local time type in force for less time than the offset changes by; three or more instants for one reading). "
+                         "proposed_fixes/C15-close-transitions.patch repairs all but the readings with three or more instants (the result type holds two).",
+    "all-year-dst": "zic writes daylight saving time that never ends as a rule whose end coincides with the next start (\"XXX3YYY2,0/0,J365/25\", also J1/0,J365/25): the "
+                    "standard time lasts zero seconds, but resolve_local_seconds treats the end of one year as an ordinary change back to standard time, so the wall-clock "
+                    "readings of the (dst - std) span after each New Year are reported as repeated (two instants, one of them reading back differently). An instance of "
+                    "close-transitions (two changes at the same second); proposed_fixes/C15-close-transitions.patch.",
     "table-end-near-rule": "Wall-clock readings up to 26 h after the last table transition are answered from the table alone (v2_estimate_tz_pair), although "
-                           "a rule transition of the footer already lies in that stretch. proposed_fixes/C15-2-close-transitions.patch.",
+                           "a rule transition of the footer already lies in that stretch. proposed_fixes/C15-close-transitions.patch.",
 }
 CAUSE = {
-    "posix-rule": "Cause: POSIX footer rule evaluation compares (month, day/7+1, weekday) triples of the UTC day and uses the DST offset for both transition times; wrong around rule transitions; repair: proposed_fixes/C15-1-posix-rule-instants.patch",
-    "local-lookup": "Cause: beyond the transition table the wall-clock lookup is answered by resolve_posix_tz_string, which decides DST from (month, week, weekday) triples of the local value read as UTC and uses one offset for both rule times; wrong within a day of each rule transition and on the days the triple comparison misorders; repair: proposed_fixes/C15-1-posix-rule-instants.patch",
-    "posix-rule-day-kinds": "Cause: Jn / n day rules are compared with the zero-based day of the year of the UTC day (Jn one day late), the DST offset is used for both rule times, rule times outside 0..24 h are not carried to the neighbouring day; see roots; repair: proposed_fixes/C15-1-posix-rule-instants.patch",
-    "mixed-day-kinds": "Cause: cmp_seconds_to_transitions rejects footers whose two rules are of different day kinds with TemporalError::assert(); see roots; repair: proposed_fixes/C15-1-posix-rule-instants.patch or C03-mixed-day-kinds-minimal.patch",
-    "close-transitions": "Cause: v2_estimate_tz_pair stops at the first transition whose two readings bracket the value and can hold at most two instants; see roots; repair (up to two instants): proposed_fixes/C15-2-close-transitions.patch",
-    "table-end-near-rule": "Cause: readings within 26 h after the last table transition never consult the footer; see roots; repair: proposed_fixes/C15-2-close-transitions.patch",
+    "close-transitions": "Cause: resolve_local_seconds stops at the first offset change whose two readings bracket the value and can hold at most two instants; see roots; repair (up to two instants): proposed_fixes/C15-close-transitions.patch",
+    "all-year-dst": "Cause: the end of the year's daylight saving time and the next start fall on the same second; resolve_local_seconds takes the end as a change of its own; see roots; repair: proposed_fixes/C15-close-transitions.patch",
+    "table-end-near-rule": "Cause: readings within 26 h after the last table transition never consult the footer; see roots; repair: proposed_fixes/C15-close-transitions.patch",
 }
 
 
 def root_of(op, cls):
-    if "rule-mixed" in cls:
-        return "mixed-day-kinds"
+    if "all-year-dst" in cls:
+        return "all-year-dst"
     if "several-transitions" in cls:
         return "close-transitions"
-    if "and-rule-transition" in cls:
+    if "and-rule-transition" in cls or "table-end-within-26h" in cls:
         return "table-end-near-rule"
-    if "rule-J" in cls or "rule-N" in cls:
-        return "posix-rule-day-kinds"
-    return "posix-rule" if op == "Tzdb.offset" else "local-lookup"
+    raise SystemExit(f"class outside the recorded root causes, triage by hand: {op} {cls}")
 
 
 def civil(d):
@@ -121,6 +111,9 @@ def produce(binp, d, seeds):
         for s in seeds:
             for p in range(NPARTS):
                 tr = os.path.join(d, f"{tag}{s}_{p}.ndjson")
+                if binp is None:
+                    jobs.append(tr)
+                    continue
                 subprocess.run([binp, "record", "c15", str(s), str(cap), tr, "synth", str(nz), str(p), str(NPARTS)], check=True, stdout=subprocess.DEVNULL,
                                env=dict(os.environ, VERIF_TIER="thorough" if tag == "t" else "quick"))
                 jobs.append(tr)
@@ -167,9 +160,12 @@ def main():
     ap.add_argument("--seeds", default="1,2,3,4,5,6")
     ap.add_argument("--dir", default=os.path.join(lib.OUT, "harvest"))
     ap.add_argument("--reuse", action="store_true")
+    ap.add_argument("--revalidate", action="store_true", help="keep the recorded traces of --dir, run TLC again (after a change of the class labels)")
     a = ap.parse_args()
     a.dir = os.path.abspath(a.dir)
-    if not a.reuse:
+    if a.revalidate:
+        produce(None, a.dir, [int(x) for x in a.seeds.split(",")])
+    elif not a.reuse:
         produce(lib.build_harness("dev"), a.dir, [int(x) for x in a.seeds.split(",")])
     best, cnt = collect(a.dir)
     kf = json.load(open(TARGET))
@@ -182,7 +178,7 @@ def main():
         if k in covered:
             continue
         op, cls, obs = k
-        if obs not in ("ok", "assert"):
+        if obs != "ok":
             raise SystemExit(f"unexpected observed kind, triage by hand: {k}")
         _, m, ev, desc = best[k]
         root = root_of(op, cls)
